@@ -325,6 +325,11 @@ func newSeedMode(e *env, rng *rand.Rand, honest bool, force *swarm.SeedMode) *sw
 		r.SendExt0(swarm.StdExt0(int64([]int{0, 5, 250}[rng.IntN(3)]), 0))
 	}
 	m := swarm.SeedMode{}
+	if honest {
+		// an honest seed is not an instant one: it answers after a few (virtual) milliseconds and forgets a
+		// request that was cancelled in between
+		m.Delay = []time.Duration{0, 0, 30 * time.Millisecond, 80 * time.Millisecond}[rng.IntN(4)]
+	}
 	if !honest {
 		switch rng.IntN(3) {
 		case 0:
@@ -810,6 +815,13 @@ func frontends(t *testing.T, r *vk.Run) {
 				}
 				sw.ClearTags()
 			}
+			// nobody can deliver any more: FUSE reads block, and an interrupted one fails promptly while the
+			// others on the same open file keep waiting
+			for _, s := range e.seeds {
+				s.Close()
+			}
+			e.evict(true, rng)
+			fuseInterrupt(e, rng, multi, path, flen)
 		})
 		for k, v := range st {
 			c.Count(k, int64(v))
@@ -948,6 +960,116 @@ func httpRange(e *env, rng *rand.Rand, url string, foff, flen int64) bool {
 		e.stats["http_multipart"]++
 	}
 	return true
+}
+
+// fuseInterrupt: two (or three) reads are blocked on one open file (the data is gone and no seed is left);
+// one of them is interrupted (its context ends, as the kernel's INTERRUPT does): it must return within the
+// prompt bound, with an error and no data, while the others stay blocked; then the others are interrupted.
+func fuseInterrupt(e *env, rng *rand.Rand, multi bool, path []string, flen int64) {
+	sw := e.sw
+	if flen < 2 {
+		return
+	}
+	var node fs.Node = storfuse.VerifRoot()
+	comps := path
+	if multi {
+		comps = append([]string{e.g.Name}, path...)
+	}
+	for _, cpt := range comps {
+		lk, ok := node.(fs.NodeStringLookuper)
+		if !ok {
+			return
+		}
+		nn, err := lk.Lookup(context.Background(), cpt)
+		if err != nil {
+			return
+		}
+		node = nn
+	}
+	op, ok := node.(fs.NodeOpener)
+	if !ok {
+		return
+	}
+	h, err := op.Open(context.Background(), &fuse.OpenRequest{Flags: fuse.OpenReadOnly}, &fuse.OpenResponse{})
+	if err != nil {
+		return
+	}
+	hr := h.(fs.HandleReader)
+	type blk struct {
+		cancel context.CancelFunc
+		mu     sync.Mutex
+		done   bool
+		n      int
+		err    error
+	}
+	n := 2 + rng.IntN(2)
+	bs := make([]*blk, n)
+	for k := range bs {
+		ctx, cancel := context.WithCancel(context.Background())
+		b := &blk{cancel: cancel}
+		bs[k] = b
+		off := rng.Int64N(flen)
+		go func() {
+			resp := &fuse.ReadResponse{Data: make([]byte, 0, 4096)}
+			err := hr.Read(ctx, &fuse.ReadRequest{Offset: off, Size: 4096}, resp)
+			b.mu.Lock()
+			b.done, b.n, b.err = true, len(resp.Data), err
+			b.mu.Unlock()
+		}()
+		sw.Cut() // they queue up on the handle one after the other
+	}
+	time.Sleep(2 * time.Second)
+	sw.Cut()
+	isDone := func(b *blk) bool { b.mu.Lock(); defer b.mu.Unlock(); return b.done }
+	for _, b := range bs {
+		if isDone(b) {
+			// something was readable after all: nothing to interrupt in this history
+			for _, x := range bs {
+				x.cancel()
+			}
+			sw.Cut()
+			time.Sleep(promptBound)
+			sw.Cut()
+			return
+		}
+	}
+	order := rng.Perm(n)
+	for pos, k := range order {
+		b := bs[k]
+		b.cancel()
+		sw.Act("FUSE read %d of %d on one handle interrupted", k, n)
+		waited := time.Duration(0)
+		for !isDone(b) && waited < promptBound {
+			sw.Cut()
+			time.Sleep(time.Second)
+			waited += time.Second
+		}
+		sw.Cut()
+		if !isDone(b) {
+			sw.Viol("C02", "prompt-failure", fmt.Sprintf("fuse-interrupted-read-survives queued-%d-of-%d", k, n), fmt.Sprintf("FUSE read %d of %d queued on one open file is still blocked %v (virtual) after it was interrupted (%d interrupted before it)", k, n, promptBound, pos))
+			for _, x := range bs {
+				x.cancel()
+			}
+			return
+		}
+		if b.n > 0 || b.err == nil {
+			sw.Viol("C02", "prompt-failure", "fuse-interrupted-read-result", fmt.Sprintf("an interrupted FUSE read returned (%d bytes, %v)", b.n, b.err))
+		}
+		e.stats["fuse_reads_interrupted_promptly"]++
+		// the others are still waiting for their own data
+		for _, k2 := range order[pos+1:] {
+			if isDone(bs[k2]) {
+				bs[k2].mu.Lock()
+				n2, err2 := bs[k2].n, bs[k2].err
+				bs[k2].mu.Unlock()
+				sw.Viol("C02", "prompt-failure", "fuse-read-ended-by-another-reads-interrupt", fmt.Sprintf("FUSE read %d returned (%d bytes, %v) when read %d on the same open file was interrupted", k2, n2, err2, k))
+				for _, x := range bs {
+					x.cancel()
+				}
+				return
+			}
+		}
+	}
 }
 
 func fuseReads(e *env, rng *rand.Rand, multi bool, path []string, foff, flen int64) bool {
